@@ -15,7 +15,7 @@ from ..translate import c01 as tr
 PROPERTY = "C01"
 THEOREM_MODULE = "NemoVerif.Theorems.C01"
 METHOD = "C01.conv"
-RULE = ("case = (Colang version, dialog rails on/off, enable_rails_exceptions, ordered input/output rail lists incl. permuted and repeated "
+RULE = ("case = (Colang version, Colang 1.0 generation mode (task prompts / passthrough chat, completion, function / single call), system+context message in front, dialog rails on/off, enable_rails_exceptions, ordered input/output rail lists incl. permuted and repeated "
         "rails, history carried by messages or by state, 1-4 turns, per turn and rail a verdict accept/reject/rewrite/raise, an intent "
         "(flow / LLM-generated next step / flow with custom action), optional faults of the dialog and retrieval actions). "
         "non-trivial = at least one rail configured AND (an invoked rail answered something other than accept OR the conversation has >= 2 turns); "
@@ -83,6 +83,33 @@ def gen_cases(rng, tier):
                 v = "r" if what == "r" else ["w", G.rewrite_text(rng, "in", pos + 1)]
                 c["turns"][pos]["vin"] = [[i, (v if i == rid else vv)] for i, vv in c["turns"][pos]["vin"]]
                 cases.append(c)
+    # Colang 1.0: every way a user message reaches an LLM prompt (task prompts, passthrough chat / completion / function,
+    # single call; with and without a system+context message in front; history by messages or state), a rewrite by the
+    # first or the last input rail at each turn position
+    for var in G.gen_variants(("messages", "state") if tier == "thorough" else ("messages",)):
+        for ins, outs in (([0, 1], [0]), ([1, 0], [])) if tier == "thorough" else (([0, 1], [0]),):
+            for exc in ((False, True) if tier == "thorough" else (False,)):
+                cfg = dict(var, exc=exc, **{"in": list(ins), "out": list(outs)})
+                if not G.fits("1.0", cfg["dialog"], len(ins), len(outs)):
+                    continue
+                for pos in range(2):
+                    c = dict(cfg)
+                    c["turns"] = [G.clean_turn(rng, cfg, k + 1) for k in range(2)]
+                    rid = ins[0] if pos == 0 else ins[-1]
+                    v = ["w", G.rewrite_text(rng, "in", pos + 1)]
+                    c["turns"][pos]["vin"] = [[i, (v if i == rid else vv)] for i, vv in c["turns"][pos]["vin"]]
+                    cases.append(c)
+    # Colang 2.x: every way the answering flow waits for the user (`user said something` / a literal / a regular
+    # expression; the unexpected-utterance path is the dialog configuration): accepted, then rejected by each rail
+    for usaid in ("something", "plain", "regex"):
+        for exc in (False, True):
+            for ins in ([0], [1, 0]):
+                cfg = {"ver": "2.x", "dialog": False, "exc": exc, "in": list(ins), "out": [0], "carry": "state", "usaid": usaid}
+                for rid in ins:
+                    c = dict(cfg)
+                    c["turns"] = [G.clean_turn(rng, cfg, k + 1) for k in range(3)]
+                    c["turns"][1]["vin"] = [[i, ("r" if i == rid else vv)] for i, vv in c["turns"][1]["vin"]]
+                    cases.append(c)
     if tier == "thorough":
         # all 3^n verdict tables (accept / reject / rewrite) for n <= 3 input rails at every turn position <= 3
         import itertools
